@@ -464,6 +464,15 @@ class Report:
     def note(self, text):
         self.notes.append(text)
 
+    def attempt(self, rule, *args, **kw):
+        """Run one rule; an undecided rule (AnalysisError) is deferred behind violations found by the
+        other rules instead of aborting the whole run."""
+        try:
+            return rule(*args, **kw)
+        except AnalysisError as e:
+            self.failed_floors.append(str(e))
+            return None
+
     def floor(self, name, measured, minimum):
         """Guard against rules that silently match nothing."""
         self.floors[name] = {"measured": measured, "minimum": minimum}
